@@ -108,13 +108,25 @@ Definition prepare_vertices (r : raw) : raw :=
 (* ---------------------------------------------------------------- edges *)
 Definition evalid (N : Z) (e : edge) : bool := edge_valid (fst e) (snd e) N.
 
-(* old indices (counted from s) of the edges that survive, in order *)
-Fixpoint kept_from (N : Z) (s : Z) (es : list edge) : list Z :=
+(* is a declared edge kept: it is valid and - when repeated declarations are dropped (edges_dedupe, generated) - its keyified
+   pair was not kept before (`seen`: the keys kept so far) *)
+Definition ekeep (N : Z) (seen : list edge) (e : edge) : bool :=
+  evalid N e && negb (edges_dedupe && existsb (edge_eqb (kedge e)) seen).
+
+(* the edges that survive, as declared, in order *)
+Fixpoint sel_from (N : Z) (seen : list edge) (es : list edge) : list edge :=
   match es with
   | [] => []
-  | e :: t => if evalid N e then s :: kept_from N (s + 1) t else kept_from N (s + 1) t
+  | e :: t => if ekeep N seen e then e :: sel_from N (kedge e :: seen) t else sel_from N seen t
   end.
-Definition kept_idx (N : Z) (es : list edge) : list Z := kept_from N 0 es.
+(* their old indices (counted from s) *)
+Fixpoint kept_from (N : Z) (seen : list edge) (s : Z) (es : list edge) : list Z :=
+  match es with
+  | [] => []
+  | e :: t => if ekeep N seen e then s :: kept_from N (kedge e :: seen) (s + 1) t else kept_from N seen (s + 1) t
+  end.
+Definition kept_idx (N : Z) (es : list edge) : list Z := kept_from N [] 0 es.
+Definition edges_dropped (N : Z) (es : list edge) : bool := negb (Nat.eqb (length (sel_from N [] es)) (length es)).
 
 Fixpoint enum_from {A} (i : Z) (l : list A) : list (Z * A) :=
   match l with [] => [] | x :: t => (i, x) :: enum_from (i + 1) t end.
@@ -129,9 +141,9 @@ Definition reindex (kept : list Z) (a : attr) : attr :=
 
 Definition prepare_edges (r : raw) : raw :=
   let N := zlen (vertices r) in
-  if existsb (fun e => negb (evalid N e)) (edges r) then
+  if edges_dropped N (edges r) then
     let kept := kept_idx N (edges r) in
-    mkRaw (vertices r) (map kedge (filter (evalid N) (edges r)))
+    mkRaw (vertices r) (map kedge (sel_from N [] (edges r)))
           (map (fun na => (fst na, reindex kept (snd na))) (eattrs r))
           (faces r) (fc_elem r) (fc_adj r) (cells r) (cc_elem r) (cc_adj r) (cf_elem r) (cf_adj r)
   else
